@@ -545,9 +545,12 @@ def gen_matrix_body(draw, env):
     for _ in range(rint(draw, 0, env.prof['matrix_stages'])):
         kind = pick(draw,
                     ['stage', 'stage', 'stage', 'setreg', 'assign', 'loop',
-                     'if', 'default', 'lightloop'])
+                     'if', 'default', 'lightloop', 'units'])
         if kind == 'stage':
             body += gen_stage(draw, env)
+        elif kind == 'units':
+            # cells staged so far keep the colour they were staged with
+            body += gen_units(draw, env)
         elif kind == 'setreg':
             body += gen_setreg(draw, env)
         elif kind == 'assign':
